@@ -205,6 +205,60 @@ func checkC16(w *World, r *Report) {
 		r.Check(every, "R16.4", "PatternArg.Parse anchors on every path", cpos, "regexp.Compile(\"^(\" + … + \")$\") unconditionally", "on some path the expression handed to regexp.Compile is not the ^(…)$ wrapping (e.g. patterns that already carry anchors are left alone): \"^a|b$\" then accepts any value that starts with a or ends with b")
 	})
 
+	r.Rule("R16.9", "a union accepts iff some member accepts — so every member type written in the union reaches it: in getTypes each BuildType result of the loop over the type statements is appended on every path (no member is dropped, e.g. for sharing a type name with an earlier one)", 1)
+	r.guard("R16.9", func() {
+		f := w.SSAFunc(w.Method("compile", "Compiler", "getTypes"))
+		if f == nil {
+			panic(undecided{"Compiler.getTypes"})
+		}
+		found, ok, why := everyIterationAppends(f, func(c *ssa.Call) bool {
+			return c.Call.StaticCallee() != nil && c.Call.StaticCallee().Name() == "BuildType"
+		})
+		if !found {
+			panic(undecided{"getTypes: loop that builds the member types"})
+		}
+		r.Check(ok, "R16.9", "getTypes keeps every union member", f.Pos(), "append(types, BuildType(member)) dominates the loop's back edge", "a member type can be left out of the union ("+why+"): values only that member accepts are rejected")
+	})
+
+	r.Rule("R16.10", "validation is read-only: no Validate method of a schema type or restriction writes through its receiver (types are shared by every leaf that uses them and by every value validated; a cached verdict or error object couples unrelated validations)", 10)
+	r.guard("R16.10", func() {
+		eff := NewEffects(w)
+		n := 0
+		for _, f := range allFuncs(w.SSAPkg("schema")) {
+			if f.Name() != "Validate" || f.Signature.Recv() == nil || f.Parent() != nil || len(f.Params) == 0 {
+				continue
+			}
+			if !strings.HasSuffix(w.Fset.Position(f.Pos()).Filename, "/types.go") {
+				continue
+			}
+			if _, isPtr := f.Params[0].Type().(*types.Pointer); !isPtr {
+				continue
+			}
+			n++
+			// direct stores through the receiver
+			bad := ""
+			for _, b := range f.Blocks {
+				for _, in := range b.Instrs {
+					switch x := in.(type) {
+					case *ssa.Store:
+						if eff.rootsOf(x.Addr).params[0] && !isLocalCell(x.Addr) {
+							bad = "store at " + w.PosStr(x.Pos())
+						}
+					case *ssa.MapUpdate:
+						if eff.rootsOf(x.Map).params[0] {
+							bad = "map update at " + w.PosStr(x.Pos())
+						}
+					}
+				}
+			}
+			recv := strings.TrimPrefix(types.TypeString(f.Signature.Recv().Type(), func(*types.Package) string { return "" }), "*")
+			r.Check(bad == "", "R16.10", recv+".Validate is read-only", f.Pos(), "no store through the receiver", recv+".Validate writes its receiver ("+bad+"): state left by one validation changes what a later one returns (e.g. a cached error object whose path is overwritten by the next value)")
+		}
+		if n == 0 {
+			panic(undecided{"no Validate methods found in schema/types.go"})
+		}
+	})
+
 	r.Rule("R16.5", "membership shapes: boolean accepts exactly true|false; empty rejects any non-empty value; enumeration and identityref accept iff some declared name equals the value; union accepts iff some member accepts; a range/length part accepts iff start ≤ v ≤ end", 9)
 	r.guard("R16.5", func() {
 		bm := w.Method("schema", "boolean", "Validate")
